@@ -4,6 +4,7 @@ import (
 	"encoding/hex"
 	"fmt"
 	"math/big"
+	"os"
 	"strings"
 	"time"
 
@@ -18,6 +19,9 @@ import (
 	"github.com/ethereum/go-ethereum/accounts/abi"
 	stakingtypes "github.com/cosmos/cosmos-sdk/x/staking/types"
 )
+
+// governance-set parameters at their boundaries (zero minimum stake, zero selector cap ...) in boundary mode
+var govBoundary = os.Getenv("VERIF_NOGOVBOUND") == ""
 
 // HistOpts tunes the random history generator. The generator only CHOOSES inputs; it never judges.
 type HistOpts struct {
@@ -388,9 +392,17 @@ func (w *World) RandomOp(o HistOpts) {
 				}
 				w.UpdateCyclelist(w.Gov, lists[w.pick(len(lists))])
 			case 2:
-				w.UpdateOracleParams(w.Gov, int64(1_000_000*(1+w.pick(3))))
+				if o.Boundary && !o.NoBadValues && govBoundary && w.pick(3) == 0 {
+					w.UpdateOracleParams(w.Gov, []int64{0, 1, 5, 999_999}[w.pick(4)])
+				} else {
+					w.UpdateOracleParams(w.Gov, int64(1_000_000*(1+w.pick(3))))
+				}
 			case 3:
-				w.UpdateReporterParams(w.Gov, uint64(1+w.pick(4)), int64(1_000_000*(1+w.pick(2))))
+				if o.Boundary && !o.NoBadValues && govBoundary && w.pick(3) == 0 {
+					w.UpdateReporterParams(w.Gov, uint64(w.pick(2)), []int64{0, 1, 999_999}[w.pick(3)])
+				} else {
+					w.UpdateReporterParams(w.Gov, uint64(1+w.pick(4)), int64(1_000_000*(1+w.pick(2))))
+				}
 			case 4:
 				w.UpdateSnapshotLimit(w.Gov, uint64(w.pick(5)))
 			default:
@@ -896,6 +908,50 @@ func (w *World) BridgeStory(o HistOpts) {
 	}
 }
 
+// RemovalStory: the only way out of a selection other than switching.  Governance lowers the selector cap below a
+// reporter's current number of selectors, one of them lets its bonded stake fall below the reporter's minimum and is
+// removed by a third party (RemoveSelector); it then reports with what it still has, as its own reporter or through
+// another one, shortly after its stake was counted in its former reporter's report.
+func (w *World) RemovalStory(o HistOpts) {
+	sec := time.Second
+	n := len(w.Actors)
+	if w.Bal(w.Vals[0].Oper.Addr).LT(sdkmath.NewInt(1_000_000_000)) {
+		return
+	}
+	b := w.AddActor(fmt.Sprintf("rb%d", n), 300_000_000)
+	a := w.AddActor(fmt.Sprintf("ra%d", n), 300_000_000)
+	c := w.AddActor(fmt.Sprintf("rc%d", n), 300_000_000)
+	v := w.Vals[0]
+	w.block(o, 2*sec, func() { w.Delegate(b, v, 200_000_000) }, func() { w.CreateReporter(b, sdkmath.LegacyZeroDec(), 100_000_000) })
+	w.block(o, 2*sec, func() { w.Delegate(a, v, 150_000_000) }, func() { w.SelectReporter(a, b) },
+		func() { w.Delegate(c, v, 150_000_000) }, func() { w.SelectReporter(c, b) })
+	q := w.currentCycleQuery()
+	w.block(o, 2*sec, func() { w.Tip(c, q, 1_000_000) }, func() { w.Submit(b, q, hex32(uint64(1000+w.pick(5)))) })
+	p, err := w.App.ReporterKeeper.Params.Get(w.Ctx)
+	if err != nil {
+		return
+	}
+	w.block(o, 2*sec, func() { w.UpdateReporterParams(w.Gov, 2, p.MinTrb.Int64()) })
+	w.block(o, 2*sec, func() { w.Undelegate(a, v, 100_000_000) })
+	w.block(o, 2*sec, func() { w.RemoveSelector(c, a) })
+	if w.pick(2) == 0 {
+		w.block(o, 2*sec, func() { w.CreateReporter(a, sdkmath.LegacyZeroDec(), 1_000_000) })
+	} else {
+		w.block(o, 2*sec, func() { w.CreateReporter(c, sdkmath.LegacyZeroDec(), 1_000_000) }) // fails: c is a selector
+		reps := w.reporters()
+		w.block(o, 2*sec, func() { w.SelectReporter(a, reps[w.pick(len(reps))]) })
+	}
+	q2 := w.currentCycleQuery()
+	var subs []func()
+	subs = append(subs, func() { w.Tip(c, q2, 1_000_000) })
+	for _, r := range append(w.reporters(), a) {
+		r := r
+		subs = append(subs, func() { w.Submit(r, q2, hex32(uint64(1000+w.pick(5)))) })
+	}
+	w.block(o, 2*sec, subs...)
+	w.block(o, 2*sec, func() { w.UpdateReporterParams(w.Gov, p.MaxSelectors, p.MinTrb.Int64()) })
+}
+
 // SelectorStory: a selector's stake follows it through reporters: A reports with it, the selector
 // switches to B and then to C (B may or may not have reported), C reports; unjail attempts around.
 func (w *World) SelectorStory(o HistOpts) {
@@ -975,7 +1031,11 @@ func (w *World) RunHistory(o HistOpts) {
 			continue
 		}
 		if b == storyAt && w.pick(3) == 0 {
-			w.SelectorStory(o)
+			if o.GovOps && w.pick(3) == 0 {
+				w.RemovalStory(o)
+			} else {
+				w.SelectorStory(o)
+			}
 			continue
 		}
 		if b == storyAt {
